@@ -380,7 +380,7 @@ class C01(Prop):
             "keys / 129-255 keys with occurrences under the highest keys; base64 / base64wide / both with standard, permuted, non-injective, 2-symbol and arbitrary "
             "alphabets), both compiler profiles (DFA / contiguous NFA), match_max_length in {0,1,3,512}. Inputs are "
             "spliced from true encodings of the declaration, near misses (bit flip, case flip, deletion), "
-            "overlapping / abutting / truncated occurrences and delimiter bytes (alnum / NUL / other at distance 1 "
+            "overlapping / abutting / truncated occurrences, inputs that are exactly one member long, and delimiter bytes (alnum / NUL / other at distance 1 "
             "and 2, wide pairs). The fullword neighbourhood table (4^4 contexts x ascii/wide) is enumerated "
             "completely. Compared: the full (base, offset, length, key, data) list. A few very "
             "long strings per run (33 000 - 70 000 characters, literals beyond 64 KiB once widened; ascii / wide / both, "
@@ -418,6 +418,12 @@ class C01(Prop):
             # occurrences xored with keys from the top of the range, wide ones above all
             encs = encs + encs[-6:] * 8 + encs[len(encs) // 2 - 3:len(encs) // 2] * 3
         mem, has_occ, has_miss = gen_input(rng, d, encs)
+        if rng.chance(1, 8):
+            # the input is EXACTLY one member long (no byte before or after): the shortest encoding half of the time
+            # (literals of different lengths sharing an atom: base64 alignments, ascii + wide, xor)
+            shortest = min(len(e) for e, _ in encs)
+            cands = [e for e, _ in encs if len(e) == shortest] if rng.chance(1, 2) else [e for e, _ in encs]
+            mem, has_occ, has_miss = rng.choice(cands)[:300], True, True
         params = {}
         if rng.chance(1, 4):
             params["match_max_length"] = rng.choice([0, 1, 3, 7, 512])
